@@ -189,12 +189,31 @@ def _expand(task, cfg, srv, w):
             rec['eofprobe'] = (r.status, ex)
         # successor
         nold = dict(old)
+        _delta_pending = True
         ncur = {d['id']: d['serial'] for d in r.dump if d['t'] == 'req'}
         for j, s in ctx['cur'].items():
             if ncur.get(j) != s:
                 nold[j] = s
         canon = canon_dump(r.dump, keep_refs)
         key = (canon, Mn, tuple(sorted(nold)))
+        # ---- C07: per-client behaviour recorded from solo runs / compared in multi-client runs
+        if (cfg.get('record_delta') or cfg.get('delta')) and len(ev) > 1 and isinstance(ev[1], int):
+            i = ev[1]
+            pre_p = keyhash(proj(hcanon, M, old, i)); post_p = keyhash(proj(canon, Mn, nold, i))
+            norm = tuple(_norm_line(l) for l in r.out)
+            if cfg.get('record_delta'):
+                rec['delta'] = (pre_p, ev, post_p, norm)
+            if cfg.get('delta') and i in cfg['delta']:
+                d = cfg['delta'][i].get((pre_p, ev))
+                if d is None:
+                    if cfg.get('delta_complete', {}).get(i):
+                        V.append(('C07.solo-unknown', 'client %d is in a state that no run of this client alone reaches (before %s)' % (i, proto.ev_str(ev))))
+                elif d != (post_p, norm):
+                    V.append(('C07.differs-from-solo', 'event %s: with other clients present the daemon answered %r%s; the same client alone in the same state gets %r'
+                              % (proto.ev_str(ev), list(norm), '' if d[0] == post_p else ' and reached a different per-client state', list(d[1]))))
+                for j, _inst in M:
+                    if j != i and proj(hcanon, M, old, j) != proj(canon, Mn, nold, j):
+                        V.append(('C07.other-client-changed', 'event %s of client %d changed the state of client %d' % (proto.ev_str(ev), i, j)))
         kh = keyhash(key)
         seen = _S.setdefault('seen', set())
         if kh in seen:
@@ -207,6 +226,23 @@ def _expand(task, cfg, srv, w):
                         'timers': {d['id']: d['timer'] for d in r.dump if d['t'] == 'req'}})
         out.append(rec)
     return {'sid': sid, 'results': out}
+
+
+import re as _re
+_TAGRE = _re.compile(r'^X (\S+) ([0-9a-f]+)_[0-9a-f]+ ')
+
+
+def _norm_line(l):
+    return _TAGRE.sub(r'X \1 \2_S ', l)
+
+
+def proj(canon, M, old, i):
+    """Client i's part of a canonical state: its request record, its observer record, whether a previous instance exists."""
+    r = None
+    for q in canon[1]:
+        if q[0] == i:
+            r = q
+    return (r, proto.M_get(M, i), i in old)
 
 
 def proto_mask(l):
@@ -233,7 +269,8 @@ class State:
 
 class Search:
     def __init__(self, run, services, rules, timeout, ids, alphabet, flags=e1.F_DUMP | e1.F_STATS,
-                 nworkers=16, maxdepth=None, maxstates=None, keep_refs=False, pbudget=3, label='', conf_extra=''):
+                 nworkers=16, maxdepth=None, maxstates=None, keep_refs=False, pbudget=3, label='', conf_extra='',
+                 record_delta=False, delta=None, delta_complete=None):
         self.run = run
         self.b = _build.build()
         self.services, self.rules, self.timeout, self.ids = list(services), list(rules), timeout, list(ids)
@@ -244,7 +281,8 @@ class Search:
         self.label = label
         self.conf = e1.conf_text(os.path.join(self.b, 'mods-wrapped'), services=self.services, timeout=timeout, rules=self.rules, extra=conf_extra)
         self.cfg = {'conf': self.conf, 'build': self.b, 'services': self.services, 'rules': self.rules, 'timeout': timeout,
-                    'keep_refs': keep_refs, 'pbudget': pbudget}
+                    'keep_refs': keep_refs, 'pbudget': pbudget, 'record_delta': record_delta, 'delta': delta, 'delta_complete': delta_complete}
+        self.delta = {}
         self.states = []
         self.index = {}
         self.transitions = 0
@@ -352,6 +390,12 @@ class Search:
                         if 'eof' in rec:
                             self.eofs.append((sid, rec['eof']))
                             continue
+                        if 'delta' in rec:
+                            pre_p, dev, post_p, norm = rec['delta']
+                            prev = self.delta.get((pre_p, dev))
+                            if prev is not None and prev != (post_p, norm):
+                                raise HarnessError('%s: the per-client projection is not a function: %s gives two different results' % (self.label, proto.ev_str(dev)))
+                            self.delta[(pre_p, dev)] = (post_p, norm)
                         for tag, text in rec['V']:
                             self.tag_counts[tag] = self.tag_counts.get(tag, 0) + 1
                             if self.tag_counts[tag] <= 40:
